@@ -48,6 +48,10 @@ CHECKS = {
         "subject are reported; parser helpers propagate errors as values; the panic-capable sites of parser/analyzer/ast are "
         "the confirmed inventory. 'No stage panics on ANY input' is not decidable by this family and is not claimed.",
    ref="7/C10"),
+ "C03": dict(level="translation_validation", technique="bit-provenance layout extraction from emitted Rust encoders compared with an independent reference model of doc/reference.md",
+   text="Per type and endianness, the layout the emitted encoder writes (bit provenance of every put_*, byte order, arrays, "
+        "padding, payload, optionals, size/count/flag derivations, child regions) equals the reference layout item by item "
+        "and bit by bit; value independent, hence for all values.", ref="7/C03"),
 }
 NOT_APPLICABLE = {
  "C19": "Java backend: no Java front-end to the abstract interpreter can be built and validated in this sandbox "
